@@ -269,13 +269,39 @@ fn gen_doc(rng: &mut Rng, profile: Profile) -> GTree {
             // inner elements rebind p, q, r among the same three namespaces (a permutation, so
             // every name stays resolvable): the same prefix means different namespaces in
             // sibling scopes (seed C20i: a binding remembered past the end of its scope)
+            fn add_attrs(k: &mut GTree, names: &[usize]) {
+                for &a in names {
+                    if !k.kids.iter().any(|x| matches!(x.v, GValue::Attribute(n, _) if n == a)) {
+                        let at = k.kids.iter().position(|x| x.is_normal()).unwrap_or(k.kids.len());
+                        k.kids.insert(at, GTree::leaf(GValue::Attribute(a, "v".into())));
+                    }
+                }
+            }
             fn shadow(rng: &mut Rng, t: &mut GTree) {
+                let mut after_shadowed = false;
                 for k in t.kids.iter_mut() {
                     if let GValue::Element(_) = k.v {
+                        if after_shadowed && rng.chance(2, 3) {
+                            // the element after a rebinding scope uses every prefix on attributes
+                            add_attrs(k, &[7, 10, 13]);
+                        }
+                        after_shadowed = false;
                         if rng.chance(1, 3) {
+                            after_shadowed = true;
+                            if rng.chance(2, 3) {
+                                add_attrs(k, &[6, 9, 12]);
+                            }
                             let perm = *rng.pick(&[[NS_B, NS_A, NS_C], [NS_A, NS_C, NS_B], [NS_C, NS_B, NS_A], [NS_B, NS_C, NS_A], [NS_C, NS_A, NS_B]]);
                             for (i, ns) in perm.iter().enumerate().rev() {
                                 k.kids.insert(0, GTree::leaf(GValue::Namespace(2 + i, *ns)));
+                            }
+                        }
+                        // prefixed attributes on both sides of a scope boundary
+                        if rng.chance(1, 2) {
+                            let a = *rng.pick(&[6usize, 9, 12]);
+                            if !k.kids.iter().any(|x| matches!(x.v, GValue::Attribute(n, _) if n == a)) {
+                                let at = k.kids.iter().position(|x| x.is_normal()).unwrap_or(k.kids.len());
+                                k.kids.insert(at, GTree::leaf(GValue::Attribute(a, "v".into())));
                             }
                         }
                         shadow(rng, k);
